@@ -326,6 +326,34 @@ def check_legacy_prefix(res, mode, n, m):
               {"case": "legacy-prefix", "mode": mode, "n": n, "m": m}, [a[k : k + 3], b[k : k + 3]])
 
 
+CACHED = ["_node_strings_map", "node_strings_map", "_token_arr", "token_arr", "_tokenizer_map", "tokenizer_map", "_padding_token_index", "padding_token_index"]
+
+
+def check_legacy_after_clear_cache(res, mode, a, b, touched):
+    """multi-step: some cached views of a legacy tokenizer are computed, its grid size is changed, clear_cache() is called - afterwards every
+    vocabulary fact must be that of a fresh tokenizer with the new size (the map the inverse of the list, same list, same size)"""
+    inp = {"case": "legacy-clear-cache", "mode": mode, "n": a, "m": b, "touched": list(touched)}
+    res.seen(("legacy-clear-cache", mode, a, b, tuple(touched)), nontrivial=bool(touched))
+    t = _legacy(mode, a)
+    for name in touched:
+        try:
+            getattr(t, name)
+        except Exception:  # noqa: BLE001  (a view that does not exist in this mode)
+            pass
+    try:
+        t.max_grid_size = b
+        t.clear_cache()
+        arr, tmap, vs = list(t.token_arr), dict(t.tokenizer_map), t.vocab_size
+    except Exception as e:  # noqa: BLE001
+        _fail(res, "C14:legacy:clear-cache", f"{mode}: after max_grid_size {a}->{b} and clear_cache(): {type(e).__name__}: {e}", inp, None)
+        return
+    want = _legacy_arr(mode, b)
+    if arr != want or vs != len(want):
+        _fail(res, "C14:legacy:clear-cache", f"{mode}: after max_grid_size {a}->{b} and clear_cache() (computed before: {list(touched)}) token_arr has {len(arr)} entries / vocab_size {vs}, a fresh tokenizer has {len(want)}", inp, len(arr))
+    if tmap != {tok: i for i, tok in enumerate(want)}:
+        _fail(res, "C14:legacy:clear-cache", f"{mode}: after max_grid_size {a}->{b} and clear_cache() (computed before: {list(touched)}) tokenizer_map ({len(tmap)} entries) is not the inverse of the token list ({len(want)} entries)", inp, len(tmap))
+
+
 # ------------------------------------------------------------------ driver
 def run(tier, seed):
     warnings.simplefilter("ignore")
@@ -338,7 +366,8 @@ def run(tier, seed):
         "single token (list and string form), the whole vocabulary forwards/backwards/joined, the empty sequence and seeded random sequences "
         "(the codecs are element-wise, sequences are a sample), 17 unknown token strings and ids len, len+5, -1, -2, -len, -len-1, -4097, 10^6; the same for "
         "every legacy mode x max_grid_size 1..50 plus row-major / corner-first order of the coordinate tokens and the prefix property of the uniform mode "
-        "for every pair n<m<=50; identical in both tiers; distinct by (fact, position / mode / size / pair)",
+        "for every pair n<m<=50; multi-step: per legacy mode, cached views computed (none / each single one / ordered pairs / all), max_grid_size changed 3->5 and 5->2, clear_cache(), then all facts "
+        "compared with a fresh tokenizer; identical in both tiers; distinct by (fact, position / mode / size / pair)",
         exhaustive=True,
         functions=["corner_first_ndindex", "MazeTokenizer._token_arr", "MazeTokenizer._tokenizer_map", "constants.VOCAB_LIST", "constants.VOCAB_TOKEN_TO_INDEX"],
     )
@@ -348,6 +377,10 @@ def run(tier, seed):
     steps += [("modular codec", lambda: check_modular(res, seed))]
     steps += [("legacy %s g%d" % (mode, n), (lambda mode=mode, n=n: check_legacy(res, mode, n, seed))) for mode in MODES for n in range(1, NMAX + 1)]
     steps += [("legacy prefix", lambda: [check_legacy_prefix(res, "AOTP_UT_uniform", n, m) for n in range(1, NMAX + 1) for m in range(n + 1, NMAX + 1)])]
+    import itertools as _it
+
+    touch_sets = [()] + [(n_,) for n_ in CACHED] + [tuple(c) for c in _it.permutations(["node_strings_map", "token_arr", "tokenizer_map"], 2)] + [tuple(CACHED), tuple(reversed(CACHED))]
+    steps += [("legacy clear_cache %s" % mode, (lambda mode=mode: [check_legacy_after_clear_cache(res, mode, a, b, ts) for a, b in ((3, 5), (5, 2)) for ts in touch_sets])) for mode in MODES]
     for name, step in steps:
         try:
             step()
